@@ -19,6 +19,12 @@ CLAIMED = {
         technique=TECH + ": entropy/clock seam (LD_PRELOAD getrandom + clock_gettime), seeded incarnation histories, byte-equality oracle",
         design="DESIGN.md §4 C06",
     ),
+    "C07": dict(
+        text="Seeded simulation of a process hosting several clients: 1..4 simulated threads (real threads, but a seeded turnstile - sequential / uniform / sticky / PCT-like - decides who runs at every stream I/O call, every element evaluation via the verif hook, and every request boundary) issue 1..4 requests each through transform_str, transform_stream over fault-injecting streams, cli::run file->file on private directories, the axum Router, and (sampled) the real svgdx child. A reference model - the solo golden result of each distinct (document, configuration), computed forward and in reverse before any concurrency - judges every response: byte equality / equal error Display, exit-status and HTTP 200/400 mapping, output file exactly the golden bytes (no stale tail), failing transforms and injected faults (hard stream errors, input-is-directory, missing input/output directory/TMPDIR, /dev/full) leave a sentinel output file byte-for-byte untouched, and every same-file spelling (same, ./, ../, symlink, hard link, symlinked input) is refused with the input intact. Bounded liveness: all requests finish within the step budget.",
+        note="Today svgdx has no shared state, so interleavings cannot matter on the current tree; the check exists to catch a future cache / static / thread_local. Child processes are compared by outcome class only (stderr is Debug). hyper and sockets are below the in-process Router and are only exercised by C01 thorough's end-to-end smoke.",
+        technique=TECH + ": seeded turnstile scheduler over real threads with yield points at stream I/O and element evaluation, fault-injecting streams and file-system faults, history check against a solo reference execution",
+        design="DESIGN.md §4 C07",
+    ),
     "C10": dict(
         text="The evaluation schedule of svgdx's retry work-list is the sibling order of the document. Each generated reference DAG (22 relative-positioning kinds over 9 absolute anchor kinds) is executed under every sibling order - exhaustively all n! for n <= 5, identity + reversal + 62 seeded orders for n in 6..8 - and every element's geometry must equal its geometry under the forward-reference-free order; unsatisfiable graphs (unknown id, 2-/3-cycles, self reference, target without bounding box) must fail under every order. Exploration over DAG shapes; exhaustive over schedules for small n.",
         note="Generated elements are side-effect free (no '^', no <var>, no random functions). Numeric tolerance 2e-3. Root viewBox/width/height not compared (C08 is not applicable). The verif hook only counts retries (non-triviality); the verdict is on output bytes.",
@@ -62,7 +68,6 @@ NOT_APPLICABLE = {
 }
 
 PENDING = {
-    "C07": "check under construction in this session (planned: claimed, see DESIGN.md §4); not claimed until the engine is committed",
 }
 
 def main():
